@@ -182,6 +182,10 @@ def entry_type_fields(ck):
             return [A.const_str(e) for e in nt.args[1].elts if A.const_str(e)]
         if A.const_str(nt.args[1]):
             return A.const_str(nt.args[1]).replace(",", " ").split()
+    # the class form: `class _ResultTypeAndContentKey(NamedTuple): field: type ...`
+    ci = ck.repo.try_cls("storage_base." + ENTRY_TYPE)
+    if ci is not None and any(b.split(".")[-1] == "NamedTuple" for b in ci.base_exprs):
+        return [st.target.id for st in ci.node.body if isinstance(st, ast.AnnAssign) and isinstance(st.target, ast.Name)]
     return []
 
 
